@@ -419,8 +419,6 @@ Qed.
 
 Theorem emit_graph_erase body : emit_graph (erase_stmts body) = eres erase_wst (emit_graph body).
 Proof. unfold emit_graph. rewrite <- work_erase. reflexivity. Qed.
-Print Assumptions work_erase.
-Print Assumptions emit_graph_erase.
 
 (* ================================================================================================================= *)
 (* 3. The order of the chunks                                                                                          *)
@@ -452,7 +450,6 @@ Qed.
 
 Theorem order_of_erase optimize G : order_of optimize (erase_chunks G) = order_of optimize G.
 Proof. unfold order_of, erase_chunks. rewrite map_length. destruct optimize; [apply opt_order_erase|reflexivity]. Qed.
-Print Assumptions order_of_erase.
 
 (* ================================================================================================================= *)
 (* 4. Rendering a script, line markers off                                                                             *)
@@ -714,9 +711,6 @@ Proof.
   destruct k; reflexivity.
 Qed.
 End RENDER.
-Print Assumptions render_chunks_erase.
-Print Assumptions emit_script_erase.
-Print Assumptions emit_tops_erase.
 
 (* ================================================================================================================= *)
 (* 6. Whole programs                                                                                                   *)
@@ -732,7 +726,6 @@ Proof.
   destruct (emit_tops OFF (map xname (texts p)) optimize (tops p) 0) as [[x n]| | | |]; cbn [eres]; try reflexivity.
   unfold erase_tops_out. cbn [fst snd]. rewrite emit_texts_erase, erase_instrs_app, emit_texts_plain. reflexivity.
 Qed.
-Print Assumptions emit_program_instrs_erase.
 
 (* printing does not look at the token of a command (with or without a marker path) *)
 Lemma print_instr_erase path i : print_instr path (erase_instr i) = print_instr path i.
@@ -751,7 +744,6 @@ Proof.
   destruct (emit_program_instrs optimize None p) as [is| | | |]; cbn [eres]; try reflexivity.
   rewrite print_instrs_erase. reflexivity.
 Qed.
-Print Assumptions emit_program_erase.
 
 (* read case by case *)
 Theorem emit_program_erase_ok optimize p x :
@@ -770,9 +762,6 @@ Proof.
   rewrite emit_program_erase. destruct (emit_program optimize None p); cbn [eres];
     (split; [|split]); split; intros H; try discriminate; reflexivity.
 Qed.
-Print Assumptions emit_program_erase_ok.
-Print Assumptions emit_program_erase_label.
-Print Assumptions emit_program_erase_other.
 
 (* MAIN 2: two programs with the same erasure *)
 Definition same_result (r1 r2 : res text) : Prop :=
@@ -794,7 +783,6 @@ Proof.
   - congruence.
   - split; congruence.
 Qed.
-Print Assumptions equal_erasures_equal_output.
 
 Corollary equal_erasures_equal_text optimize p1 p2 x :
   erase_program p1 = erase_program p2 ->
@@ -803,7 +791,6 @@ Proof.
   intros E H. pose proof (equal_erasures_equal_output optimize p1 p2 E) as S. rewrite H in S.
   destruct (emit_program optimize None p2); cbn [same_result] in S; try contradiction. congruence.
 Qed.
-Print Assumptions equal_erasures_equal_text.
 
 (* ================================================================================================================= *)
 (* 7. The compiler                                                                                                     *)
@@ -857,8 +844,6 @@ Proof.
   destruct (COMPILE optimize None src2); cbn [same_outcome] in S; try contradiction. congruence.
 Qed.
 End COMPILE.
-Print Assumptions compile_equal_erasures.
-Print Assumptions compile_equal_erasures_text.
 
 (* ================================================================================================================= *)
 (* 8. From token shapes to the output (the composition with the parser half, ShapeParse.v)                             *)
@@ -921,7 +906,6 @@ Proof.
   - congruence.
   - rewrite <- (Hm e1), <- (Hm e2). congruence.
 Qed.
-Print Assumptions commuting_parser_reads_shapes.
 
 Definition parse_agree_weak (r1 r2 : Parser.res program) : Prop :=
   match r1, r2 with
@@ -1010,12 +994,6 @@ Theorem trailing_layout_same_output optimize (p r g : list N) (k : nat) :
   agree_outcome (COMPILE optimize None (p ++ g)) (COMPILE optimize None p).
 Proof. intros R H G F. apply equal_shapes_equal_output. apply (LexRest.trailing_layout_is_ignored _ _ _ p r g k); assumption. Qed.
 End COMPOSE.
-Print Assumptions compile_agree.
-Print Assumptions compile_agree_weak.
-Print Assumptions equal_shapes_equal_output.
-Print Assumptions leading_layout_same_output.
-Print Assumptions layout_between_tokens_same_output.
-Print Assumptions trailing_layout_same_output.
 
 (* ================================================================================================================= *)
 (* 9. Examples: the hypotheses are satisfiable, and "without line markers" is necessary                                *)
@@ -1156,4 +1134,3 @@ Proof.
   - apply map_idem. exact erase_top_idem.
   - apply map_idem. intros x. reflexivity.
 Qed.
-Print Assumptions erase_program_idem.
